@@ -9,8 +9,10 @@
 -/
 import YashModel.Proc.Model
 import YashModel.Proc.Pipeline
+import YashModel.Proc.ForkLoop
 import YashModel.Proc.Spec
 namespace YashModel.Proc
+open YashModel.Generated.ProcConsts (SIGNAL_EXIT_OFFSET EXIT_FAILURE signalEffects)
 
 inductive Member where
   | st (n : Nat)        -- `st N`
@@ -45,12 +47,17 @@ def sigNo (name : String) : Nat := (sigNames.idxOf name) + 1
 
 /-- an exit status as the observation shows it: above 384 = killed / interrupted by that signal -/
 def showStatus (st : Nat) : String :=
-  if st > 384 then s!"K{sigNames.getD (st - 385) "?"}" else toString st
+  if st > SIGNAL_EXIT_OFFSET then s!"K{sigNames.getD (st - SIGNAL_EXIT_OFFSET - 1) "?"}" else toString st
+
+/-- default action of a signal: `SignalEffect::of`, re-extracted from /repo (`Generated/ProcConsts.lean`) -/
+def sigEffect (name : String) : String := (signalEffects.lookup name).getD "?"
 
 inductive Stmt where
   | pf (on : Bool)
   | pipe (neg : Bool) (ms : List Member)
   | flow (fs : List Spec.Flow)
+  /-- `fd X Y N`: an N-stage pipeline in a subshell with descriptors X ⊆ {0,1,2} closed and Y ⊆ {3..9} open -/
+  | fd (closed opened : List Nat) (n : Nat)
   | bg (ms : List Member)
   | wj (ops : List WOp)
   | monitor (on : Bool)
@@ -94,13 +101,17 @@ def waitAll (base n : Nat) : List Req :=
 
 /-- A fresh process (a subshell) forks children with the given statuses and waits for each of them:
     the statuses it sees. -/
-def nestedWait (useSys : Bool) (digits : List Nat) (salt : Nat) (sts : List Nat) : List Nat :=
+def nestedWaitRaw (useSys : Bool) (digits : List Nat) (salt : Nat) (sts : List Nat) : List Nat :=
   if !useSys then sts
   else
     let s := run 100000 (mkChoices digits salt)
       { children := mkChildren digits salt sts, todo := waitAll 0 sts.length }
     let got := s.results.reverse.map waitStatus
     if got.length = sts.length ∧ s.final then got else sts.map fun _ => 999
+
+/-- the children exit with `sts`; the kernel records (and POSIX lets the parent see) the low 8 bits -/
+def nestedWait (useSys : Bool) (digits : List Nat) (salt : Nat) (sts : List Nat) : List Nat :=
+  nestedWaitRaw useSys digits salt (sts.map exitStatusSeen)
 
 def memberStatus (useSys : Bool) (digits : List Nat) (salt : Nat) : Member → Nat
   | .st n => n
@@ -131,6 +142,9 @@ structure St where
   info : List (Nat × Nat × Bool) := []
   /-- napping jobs that certainly have not finished (no statement since let virtual time pass) -/
   fresh : List Nat := []
+  /-- jobs stopped by `k STOP` and not continued since: a stopped job cannot finish, it stays certainly alive
+      however much virtual time passes -/
+  stopped : List Nat := []
   /-- model column only: children that sleep.  Virtual time is not part of the small-step model, so a
       sleeping child is kept out of the scheduler (parked as a non-waitable entry of the process table)
       until a statement lets time pass; then it becomes an ordinary running child with this final state. -/
@@ -147,6 +161,11 @@ structure St where
   status : Nat := 0
   x : String := ""
   out : List String := []
+  /-- descriptor tables of the `fd` statements, in order -/
+  fds : List String := []
+
+/-- the jobs that are still certainly alive after virtual time may have passed: the stopped ones -/
+def St.kept (st : St) : List Nat := st.fresh.filter fun p => st.stopped.contains p
 
 def St.fork (st : St) (sts : List Nat) : St × Nat :=
   let base := st.sys.children.length
@@ -161,7 +180,9 @@ def pipeFold (useSys : Bool) (pf : Bool) (sts : List Nat) : Nat :=
   if useSys then pipeStatus pf sts else Spec.pipe pf sts
 
 /-- fork + `wait_for_subshell_to_finish` of the main shell for children with the given true statuses -/
-def St.forkWait (st : St) (sts : List Nat) : St × List Nat :=
+def St.forkWait (st : St) (sts0 : List Nat) : St × List Nat :=
+  -- `exit(s)`: the low 8 bits are what the process table records and what `wait` hands out
+  let sts := sts0.map exitStatusSeen
   if st.useSys then
     let (st1, base) := st.fork sts
     let st2 := st1.exec (waitAll base sts.length)
@@ -214,7 +235,7 @@ def St.wake (st : St) : St :=
 
 /-- bookkeeping after `wait`: the table may have shrunk -/
 def St.afterWait (st : St) (before : List Nat) : St :=
-  let st := { st with fresh := [] }
+  let st := { st with fresh := st.kept }
   if st.active.isEmpty then { st with epoch := [], clean := true }
   else if st.active.length < before.length then { st with clean := false }
   else st
@@ -223,7 +244,7 @@ def St.afterWait (st : St) (before : List Nat) : St :=
 def St.waitOps (st : St) (ops : List WOp) : St :=
   let st := st.wake
   match ops.mapM st.pidOf with
-  | none => { st with status := 2, fresh := [] }   -- ambiguous job ID: `report_error`, nothing is awaited
+  | none => { st with status := 2, fresh := st.kept }   -- ambiguous job ID: `report_error`, nothing is awaited
   | some pids =>
     if st.useSys then
       -- `Command::execute`: resolve every operand first, then await
@@ -259,6 +280,48 @@ def flowStatuses (useSys : Bool) (digits : List Nat) (salt : Nat) (fs : List Spe
     if t.done then t.statuses else fs.map fun _ => 998
   else Spec.flowStatuses 0 fs
 
+/-! ### descriptor tables of pipeline stages (`fd` statements) -/
+
+/-- descriptors the observation looks at -/
+def fdBound : Nat := 64
+
+def showRes : Res → String
+  | .rd j => s!"r{j}"
+  | .wr j => s!"w{j}"
+  | .other => "o"
+
+def showKind : Spec.FdKind → String
+  | .rd j => s!"r{j}"
+  | .wr j => s!"w{j}"
+  | .other => "o"
+
+/-- a table as the observation shows it: `<fd><kind>` of every open descriptor, `-` if there is none -/
+def showTable (row : Nat → Option String) : String :=
+  let toks := (List.range fdBound).filterMap fun fd => (row fd).map fun k => s!"{fd}{k}"
+  if toks.isEmpty then "-" else ",".intercalate toks
+
+/-- the shell's table when the pipeline starts: 0, 1, 2 minus `closed`, plus `opened` -/
+def startOpen (closed opened : List Nat) (fd : Nat) : Bool :=
+  (fd < 3 && !closed.contains fd) || opened.contains fd
+
+/-- ` F[<before>|<stage 0>|…|<stage n-1>|<after>]`.  Model column: `pipelineSetup` (fork loop of the parent
+    with `PipeSet::shift`, `move_to_stdin_stdout` in every child) with the allocation policy of the virtual
+    system (lowest free descriptor); spec column: `Spec.stageFd`.  `pipeline_setup_exact` proves the two
+    equal for every `n`, every starting table and every allocation for which the set-up goes through. -/
+def fdTables (useSys : Bool) (closed opened : List Nat) (n : Nat) : String :=
+  let openB := startOpen closed opened
+  let before := showTable fun fd => if openB fd then some "o" else none
+  if useSys then
+    let T0 : FdTab := fun fd => if openB fd then some .other else none
+    match pipelineSetup (Alloc.lowest fdBound) n T0 with
+    | none => " F[setup-failed]"
+    | some (ts, Tf) =>
+      let rows := ts.map fun T => showTable fun fd => (T fd).map showRes
+      " F[" ++ "|".intercalate ([before] ++ rows ++ [showTable fun fd => (Tf fd).map showRes]) ++ "]"
+  else
+    let rows := (List.range n).map fun k => showTable fun fd => (Spec.stageFd openB n k fd).map showKind
+    " F[" ++ "|".intercalate ([before] ++ rows ++ [before]) ++ "]"
+
 def St.subshell (st : St) (v : Nat) : St :=
   let (st1, got) := st.forkWait [v]
   { st1 with status := got.getD 0 999 }
@@ -273,7 +336,7 @@ def St.newJob (st : St) (v kind : Nat) : St :=
 
 /-- the job with pid `pid` will end killed by signal `sig` (it is alive: a napping job) -/
 def St.killJob (st : St) (pid sig : Nat) : St :=
-  let st1 := { st with jobs := st.jobs.map fun j => if j.2.1 == pid then (j.1, pid, sig + 384) else j,
+  let st1 := { st with jobs := st.jobs.map fun j => if j.2.1 == pid then (j.1, pid, sig + SIGNAL_EXIT_OFFSET) else j,
                        fresh := st.fresh.filter (· != pid) }
   if st.useSys ∧ (st.asleep.any fun e => e.1 == pid) then
     { st1 with sys := { st1.sys with children := st1.sys.children.set pid { state := .running 0 (.signaled sig) } },
@@ -292,15 +355,21 @@ def St.stmt (st : St) : Stmt → St
   | .flow fs =>
     let (st1, got) := st.forkWait (flowStatuses st.useSys st.digits st.runs fs)
     { st1 with status := pipeFold st.useSys st.pf got }
+  | .fd closed opened n =>
+    -- `( exec …; fdsnap B; fdsnap 0 | … | fdsnap n-1; fdsnap P )`: a subshell that runs an n-stage pipeline
+    let sts := (List.range n).map fun _ => 0
+    let st1 := st.subshell (pipeFold st.useSys st.pf (nestedWait st.useSys st.digits (st.runs + 2) sts))
+    { st1 with fds := st1.fds ++ [fdTables st.useSys closed opened n] }
   | .bg ms =>
     let sts := st.members ms
     let v := match sts with
       | [v] => v
       | _ => pipeFold st.useSys st.pf (nestedWait st.useSys st.digits (st.runs + 5) sts)
-    st.newJob v (match ms with | .st _ :: _ => 1 | _ => 0)
+    st.newJob (exitStatusSeen v) (match ms with | .st _ :: _ => 1 | _ => 0)
   | .wj ops => st.waitOps ops
   | .monitor on => { st with monitor := on, status := 0 }
-  | .bn _ n =>
+  | .bn _ n0 =>
+    let n := exitStatusSeen n0
     let st1 := st.newJob n 2
     let pid := (st1.jobs.getLast?.map (·.2.1)).getD 0
     let st2 := { st1 with fresh := st1.fresh ++ [pid] }
@@ -313,22 +382,29 @@ def St.stmt (st : St) : Stmt → St
     | none => { st with status := 0 }
     | some (_, pid, _) =>
       let st0 := { st with status := 0 }
-      if !st.fresh.contains pid then st0
-      else if sig == "STOP" then { st0 with clean := false }
-      else if sig == "CONT" then st0
+      -- a job that is not certainly alive has certainly ended (the generator sends nothing else) and was reaped by
+      -- the `update_all_subshell_statuses` after the command during which it ended: for the kernel that process
+      -- no longer exists (`VirtualSystem::kill`: terminated and state consumed by `wait` → ESRCH), the `kill`
+      -- built-in fails with `ExitStatus::FAILURE`; the job's first terminal status stands for a later `wait`
+      if !st.fresh.contains pid then { st0 with status := EXIT_FAILURE }
+      else if sigEffect sig == "suspend" then { st0 with clean := false, stopped := st0.stopped ++ [pid] }
+      else if sigEffect sig == "resume" then { st0 with stopped := st0.stopped.filter (· != pid) }
+      else if sigEffect sig == "none" then st0
+      else if sigEffect sig != "terminate" then { st0 with status := 997 }   -- not a signal of the table
       else if (sig == "INT" || sig == "QUIT") &&
           ((st.info.find? (fun i => i.1 == pid)).map (·.2.2)).getD false then st0
       else st0.killJob pid (sigNo sig)
   | .tw sig n =>
     -- the helper job; the `wait` for it is interrupted by the trapped signal: trap action first, then 384+sig
-    let st1 := st.wake.newJob n 0
-    { st1 with status := sigNo sig + 384, out := s!"o:trap{sig.toLower}" :: st1.out, fresh := [] }
-  | .tk gap sig _ n =>
+    let st1 := st.wake.newJob (exitStatusSeen n) 0
+    { st1 with status := sigNo sig + SIGNAL_EXIT_OFFSET, out := s!"o:trap{sig.toLower}" :: st1.out, fresh := st1.kept }
+  | .tk gap sig _ n0 =>
+    let n := exitStatusSeen n0
     -- the shell traps `sig`, forks a napping job and sends it `sig` (at once, or after a foreground
     -- command): whether the signal is delivered by `kill` or, pending, by the child's entry step when it
     -- unblocks, the child ends `signaled sig` and the parent is told — unless the child ignores it
     let st0 := if gap then (st.wake.subshell 0) else st
-    let st0 := if gap then { st0 with fresh := [] } else st0
+    let st0 := if gap then { st0 with fresh := st0.kept } else st0
     let st1 := st0.newJob n 2
     let pid := (st1.jobs.getLast?.map (·.2.1)).getD 0
     let st2 := if st.useSys then
@@ -385,6 +461,6 @@ def interp (useSys : Bool) (digits : List Nat) (prog : List Stmt) : String :=
   let st0 : St := { useSys := useSys, digits := digits }
   let st : St := prog.foldl (fun (st : St) (s : Stmt) => (st.stmt s).probe) st0
   let z := if useSys then zombies st.sys else 0
-  " ".intercalate st.out.reverse ++ s!" st={showStatus st.status} z={z}"
+  " ".intercalate st.out.reverse ++ s!" st={showStatus st.status} z={z}" ++ String.join st.fds
 
 end YashModel.Proc
